@@ -237,6 +237,78 @@ RC_CFG = {
 BENCHES = {n: partial(rc_bench, n, **c[0]) for n, c in RC_CFG.items()}
 
 
+def ddr4mux_job(nphases):
+    """DDR4DFIMux (phy/dfi.py): the controller encodes ACTIVATE as ras_n=0,cas_n=1,we_n=1; a DDR4 device wants ACT_n=0 with the row
+    bits 16/15/14 on the RAS_n/CAS_n/WE_n pins (JESD79-4 command truth table) and ACT_n=1 with the pins unchanged otherwise"""
+    from vlib.fhdl2smt import Design
+    from litedram.phy.dfi import Interface, DDR4DFIMux
+    label = "ddr4_dfi_mux_p%d" % nphases
+    recs = []
+    t00 = time.time()
+    try:
+        di = Interface(addressbits=17, bankbits=4, nranks=1, databits=16, nphases=nphases)
+        do = Interface(addressbits=17, bankbits=4, nranks=1, databits=16, nphases=nphases)
+
+        class Top(Module):
+            pass
+        top = Top()
+        top.submodules.dut = DDR4DFIMux(di, do)
+        ins = [s_ for _, _, s_ in _fields(di, DIR_M_TO_S)] + [s_ for _, _, s_ in _fields(do, DIR_S_TO_M)]
+        d = Design(top, inputs=ins)
+
+        def solve(q, *cons, expect="unsat"):
+            sv = z3.Solver()
+            sv.set("timeout", 120000)
+            sv.add(*cons)
+            t0 = time.time()
+            r = str(sv.check())
+            rec = dict(q=q, result=r, s=round(time.time() - t0, 2), expect=expect)
+            if r == "sat":
+                m = sv.model()
+                rec["model"] = {str(x.name()): (m[x].as_long() if z3.is_bv_value(m[x]) else str(m[x])) for x in m.decls()}
+            recs.append(rec)
+        one = z3.BitVecVal(1, 1)
+        zero = z3.BitVecVal(0, 1)
+        bad_act, bad_other, bad_rest = [], [], []
+        for pi_, po in zip(di.phases, do.phases):
+            v = lambda sg: d.sig_val(sg).t
+            is_act = z3.And(v(pi_.ras_n) == zero, v(pi_.cas_n) == one, v(pi_.we_n) == one)
+            a = v(pi_.address)
+            bad_act.append(z3.And(is_act, z3.Or(v(po.act_n) != zero, v(po.ras_n) != z3.Extract(16, 16, a), v(po.cas_n) != z3.Extract(15, 15, a),
+                                                   v(po.we_n) != z3.Extract(14, 14, a))))
+            bad_other.append(z3.And(z3.Not(is_act), z3.Or(v(po.act_n) != one, v(po.ras_n) != v(pi_.ras_n), v(po.cas_n) != v(pi_.cas_n),
+                                                            v(po.we_n) != v(pi_.we_n))))
+            for n in ("address", "bank", "cs_n", "cke", "odt", "reset_n", "wrdata", "wrdata_en", "wrdata_mask", "rddata_en"):
+                bad_rest.append(v(getattr(po, n)) != v(getattr(pi_, n)))
+            for n in ("rddata", "rddata_valid"):
+                bad_rest.append(v(getattr(pi_, n)) != v(getattr(po, n)))
+        solve("activate_is_re_encoded_with_row_bits_16_15_14_on_ras_cas_we", z3.Or(*bad_act))
+        solve("other_commands_keep_ras_cas_we_and_deassert_act_n", z3.Or(*bad_other))
+        solve("address_bank_data_and_read_path_pass_unchanged", z3.Or(*bad_rest))
+        solve("witness_activate", d.sig_val(do.phases[0].act_n).t == zero, expect="sat")
+    except Exception as e:
+        import traceback
+        recs.append(dict(q="encode", result="unknown", s=0.0, expect="unsat", detail="%r\n%s" % (e, traceback.format_exc())))
+    return label, (nphases,), recs, time.time() - t00
+
+
+def run_ddr4mux(ctx):
+    for nph in ((2, 4) if ctx.tier == "quick" else (1, 2, 4)):
+        label, cfg, recs, secs = ddr4mux_job(nph)
+        if ctx.only and not ctx.only.search(label):
+            continue
+        for r in recs:
+            ql = "%s:%s" % (label, r["q"])
+            ctx.oblige(ql, r["result"], r["s"], expect=r["expect"], detail=r.get("detail"))
+            if r["expect"] == "sat":
+                if r["result"] != "sat":
+                    ctx.inconclusive.append("%s: witness unsatisfiable" % ql)
+                continue
+            if r["result"] == "sat":
+                path = ctx.write_replay(label, r["q"], dict(config=["ddr4mux"] + list(cfg), model=r.get("model")))
+                ctx.violation(label, r["q"], path)
+
+
 def run_injector(ctx):
     cfgs = INJ_Q if ctx.tier == "quick" else INJ_T
     ctxm = multiprocessing.get_context("fork")
@@ -259,6 +331,7 @@ def run(ctx):
     ctx.assume("injector: CSR registers are free state (any software programming); CSR bus strobes are free inputs")
     ctx.assume("clam-shell: only cs_n is broadcast to both halves (as the source states); cke/odt are compared on the lower half")
     run_injector(ctx)
+    run_ddr4mux(ctx)
     ctx.assume("rate converter: slow and fast clocks phase aligned (fast = ratio x slow, edges coincide); slow-side inputs change "
                "only at slow edges; serializer counters start from their reset value; latencies as documented (commands and write "
                "data one slow cycle, read data two slow cycles)")
@@ -275,3 +348,20 @@ def run(ctx):
 
 
 RC_K = {}
+
+
+def replay_custom(data):
+    """re-decide the stored query on the current tree (combinational queries: the model is an input assignment of one cycle)"""
+    cfg = data.get("config") or []
+    if cfg and cfg[0] == "ddr4mux":
+        label, _, recs, _ = ddr4mux_job(int(cfg[1]))
+    else:
+        label, _, recs, _ = inj_job(tuple(cfg))
+    goal = data.get("goal")
+    for r in recs:
+        if r["q"].split("(")[0] == goal and r["result"] == "sat" and r["expect"] == "unsat":
+            print("query %s:%s is satisfiable on this tree: %s" % (label, r["q"], r.get("model")))
+            print("VIOLATION property=C18 replay=%s" % data.get("path", "<file>"))
+            return 1
+    print("query %s:%s holds on this tree" % (label, goal))
+    return 0
